@@ -95,6 +95,14 @@ inline Frame buildFrame(const Shape& sh, int vs) {
     f.add(P, A);
     return f;
 }
+// What buildFrame() is MEANT to hold, computed from the value formulas only (no library object involved): the oracles compare
+// stored frames with this, so a value lost while the caller assembles its own frame (e.g. by a lossy Point copy) is seen too.
+inline FrSnap intendedFrame(const Shape& sh, int vs) {
+    FrSnap s;
+    for (size_t i = 0; i < sh.pts.size(); ++i) { PtSnap p; p.name = sh.pts[i]; while (!p.name.empty() && p.name.back() == ' ') p.name.pop_back(); p.v[0] = fbits(val(vs, i, 0)); p.v[1] = fbits(val(vs, i, 1)); p.v[2] = fbits(val(vs, i, 2)); p.v[3] = fbits(resid(vs, i)); s.pts.push_back(p); }
+    for (size_t k = 0; k < sh.nsub; ++k) { std::vector<ChSnap> v; for (size_t c = 0; c < sh.chans.size(); ++c) { ChSnap q; q.name = sh.chans[c]; while (!q.name.empty() && q.name.back() == ' ') q.name.pop_back(); q.v = fbits(aval(vs, k, c)); v.push_back(q); } s.subs.push_back(v); }
+    return s;
+}
 // The shape a conforming frame must have for the object in its CURRENT state (public accessors only).
 inline Shape declaredShape(const OSnap& o) {
     Shape sh;
